@@ -1430,11 +1430,11 @@ func (c *compiler) VisitBinaryExpr(e *ast.BinaryExpr) ast.VisitResult {
 			c.latestReturnType = c.ddpinttyp
 		}
 	case ast.BIN_LEFT_SHIFT:
-		c.latestReturn = c.cbb.NewShl(lhs, rhs)
-		c.latestReturnType = c.ddpinttyp
+		// the shift amount must have the type of the shifted value
+		c.latestReturn = c.cbb.NewShl(lhs, c.numericCast(rhs, rhsTyp, lhsTyp))
 		c.latestReturnType = lhsTyp
 	case ast.BIN_RIGHT_SHIFT:
-		c.latestReturn = c.cbb.NewLShr(lhs, rhs)
+		c.latestReturn = c.cbb.NewLShr(lhs, c.numericCast(rhs, rhsTyp, lhsTyp))
 		c.latestReturnType = lhsTyp
 	case ast.BIN_EQUAL:
 		c.compare_values(lhs, rhs, lhsTyp)
